@@ -92,8 +92,13 @@ func (p *termParser) parse() (felt.Felt, error) {
 		if !ok {
 			return felt.Felt{}, fmt.Errorf("term: bad literal %q", t)
 		}
+		// the model must reduce modulo the field prime itself wherever juno's felt.SetBytes does: a
+		// literal that is not a canonical field element is refused, not silently reduced
+		if n.Sign() < 0 || n.Cmp(starkP) >= 0 {
+			return felt.Felt{}, fmt.Errorf("term: literal %s is not below the field prime", t)
+		}
 		var f felt.Felt
-		f.SetBigInt(n) // reduces mod P like felt.SetBytes
+		f.SetBigInt(n)
 		return f, nil
 	}
 	op, err := p.next()
